@@ -659,3 +659,51 @@ V('c13-fallback-catches-everything-strict', 'C13', 'hl7apy/factories.py', "     
   "        # TODO", rule='C13-E')
 V('c16-error-handler-arg-order', 'C16', 'hl7apy/mllp.py', "        return handler_class(exc, msg, *args)", "        return handler_class(msg, exc, *args)", rule='C16-R')
 V('c16-handler-without-args', 'C16', 'hl7apy/mllp.py', "        return handler_class(msg, *args)", "        return handler_class(msg)", rule='C16-R')
+
+# ---------------------------------------------------------------- rules added after the second round of seeds (C08-C13)
+V('c13-m-digits-only', 'C13', 'hl7apy/base_datatypes.py',
+  "len('{0}'.format(value)) > self.max_length", "len([c for c in '{0}'.format(value) if c.isdigit()]) > self.max_length", rule='C13-M')
+V('c13-m-extra-condition', 'C13', 'hl7apy/base_datatypes.py',
+  "if self.max_length is not None and len('{0}'.format(value)) > self.max_length:",
+  "if self.max_length is not None and value is not None and len('{0}'.format(value)) > self.max_length:", rule='C13-M')
+V('c13-m-ge', 'C13', 'hl7apy/base_datatypes.py',
+  "len('{0}'.format(value)) > self.max_length", "len('{0}'.format(value)) > self.max_length + 1", rule='C13-M')
+V('c13-m-nm-skips-base', 'C13', 'hl7apy/base_datatypes.py',
+  "        super(NM, self).__init__(value, 16, validation_level)",
+  "        if value is None:\n            self.value = None\n            self.validation_level = validation_level\n            self.max_length = 16\n            return\n        super(NM, self).__init__(value, 16, validation_level)", rule='C13-M')
+V('c13-m-si-max', 'C13', 'hl7apy/base_datatypes.py', "super(SI, self).__init__(value, 4, validation_level)",
+  "super(SI, self).__init__(value, 5, validation_level)", rule='C13-M')
+V('c13-m-st-other-value', 'C13', 'hl7apy/base_datatypes.py', "super(ST, self).__init__(value, 199, highlights, validation_level)",
+  "super(ST, self).__init__(value and value[:199], 199, highlights, validation_level)", rule='C13-M')
+V('twin-c13-m-str', 'C13', 'hl7apy/base_datatypes.py', "len('{0}'.format(value)) > self.max_length",
+  "len(str(value)) > self.max_length", expect='clean')
+V('twin-c13-m-swapped', 'C13', 'hl7apy/base_datatypes.py',
+  "if self.max_length is not None and len('{0}'.format(value)) > self.max_length:",
+  "if self.max_length is not None and self.max_length < len('{0}'.format(value)):", expect='clean')
+V('twin-c13-m-helper', 'C13', 'hl7apy/base_datatypes.py', None, None, expect='clean', edits=[
+  ('hl7apy/base_datatypes.py', "len('{0}'.format(value)) > self.max_length", "self._text_length(value) > self.max_length"),
+  ('hl7apy/base_datatypes.py', "        self.value = value\n\n    def to_er7(self, encoding_chars=None):\n        \"\"\"\n        Encode to ER7 format",
+   "        self.value = value\n\n    def _text_length(self, v):\n        text = '{0}'.format(v)\n        return len(text)\n\n    def to_er7(self, encoding_chars=None):\n        \"\"\"\n        Encode to ER7 format")])
+V('c09-e-no-clear', 'C09', 'hl7apy/core.py',
+  "        if parent is not None:\n            self.traversal_parent = None\n            self.parent.add(self)",
+  "        if parent is not None:\n            self.parent.add(self)", rule='C09-E')
+V('c09-e-clear-after-add', 'C09', 'hl7apy/core.py',
+  "        if parent is not None:\n            self.traversal_parent = None\n            self.parent.add(self)",
+  "        if parent is not None:\n            self.parent.add(self)\n            self.traversal_parent = None", rule='C09-E')
+V('c10-x-no-clear', 'C10', 'hl7apy/core.py',
+  "        if parent is not None:\n            self.traversal_parent = None\n            self.parent.add(self)",
+  "        if parent is not None:\n            self.parent.add(self)", rule='C10-X')
+V('twin-c09-e-early-return', 'C09', 'hl7apy/core.py',
+  "        self._parent = parent\n        if parent is not None:\n            self.traversal_parent = None\n            self.parent.add(self)",
+  "        self._parent = parent\n        if parent is None:\n            return\n        self._traversal_parent = None\n        self.parent.add(self)",
+  expect='clean')
+V('c08-g-adopt-after', 'C08', 'hl7apy/core.py', None, None, rule='C08-G', edits=[
+  ('hl7apy/core.py', "        elif self.is_unknown():  # the message become a known message\n            self.name = message_structure\n            self._find_structure()\n", ""),
+  ('hl7apy/core.py', "        super(Message, self).parse_children(text, find_groups, **kwargs)\n",
+   "        super(Message, self).parse_children(text, find_groups, **kwargs)\n        if self.is_unknown():\n            self.name = message_structure\n            self._find_structure()\n")])
+V('c08-g-name-only', 'C08', 'hl7apy/core.py',
+  "            self.name = message_structure\n            self._find_structure()\n        if self.version != version:",
+  "            self.name = message_structure\n        if self.version != version:", rule='C08-G')
+V('twin-c08-g-split-if', 'C08', 'hl7apy/core.py',
+  "        elif self.is_unknown():  # the message become a known message\n            self.name = message_structure\n            self._find_structure()\n",
+  "        if self.is_unknown():\n            self.name = message_structure\n            self._find_structure()\n", expect='clean')
